@@ -119,6 +119,8 @@ type Exec struct {
 	loopWritesSnap map[string]int
 	lockHook  func(p PtrV, write bool, pos token.Pos)
 	pcParts   map[string]pcPart
+	heapForms map[string]heapForm
+	specEq    bool
 }
 
 type boxed struct {
@@ -178,6 +180,125 @@ func (ex *Exec) heapGetIn(st *State, key string, sort Sort) Term {
 func (ex *Exec) heapSet(key string, t Term) {
 	ex.st.heap[key] = ex.vc.Define("H."+key, t)
 	ex.noteHeapWrite(key)
+}
+
+// Heap updates are recorded as (parent, update) so that joins can merge two heaps that share
+// an ancestor by conditional element stores instead of an array-level ite.
+type heapUpd struct {
+	kind    int // 1: A[r] := v   2: A[r][i] := v   3: A[r] := row
+	r, i, v Term
+}
+type heapForm struct {
+	parent Term
+	upd    heapUpd
+}
+
+func (ex *Exec) hUpdate(key string, srt Sort, u heapUpd) {
+	cur := ex.heapGet(key, srt)
+	var t Term
+	switch u.kind {
+	case 1, 3:
+		t = Sto(cur, u.r, u.v)
+	case 2:
+		t = Sto(cur, u.r, Sto(Sel(cur, u.r), u.i, u.v))
+	}
+	ex.vc.fresh++
+	name := fmt.Sprintf("H.%s!%d", sanitize(key), ex.vc.fresh)
+	d := &decl{name: name, kind: dDef, text: fmt.Sprintf("(define-fun %s () %s %s)", name, t.Sort, t.S), deps: symbolsOf(t.S), seq: ex.vc.next()}
+	ex.vc.decls = append(ex.vc.decls, d)
+	ex.vc.byName[name] = d
+	nt := Term{name, t.Sort}
+	if ex.heapForms == nil {
+		ex.heapForms = map[string]heapForm{}
+	}
+	ex.heapForms[name] = heapForm{parent: cur, upd: u}
+	ex.st.heap[key] = nt
+	ex.noteHeapWrite(key)
+}
+
+func (ex *Exec) hStore1(key string, srt Sort, r, v Term)      { ex.hUpdate(key, srt, heapUpd{kind: 1, r: r, v: v}) }
+func (ex *Exec) hStore2(key string, srt Sort, r, i, v Term)   { ex.hUpdate(key, srt, heapUpd{kind: 2, r: r, i: i, v: v}) }
+func (ex *Exec) hStoreRow(key string, srt Sort, r, row Term)  { ex.hUpdate(key, srt, heapUpd{kind: 3, r: r, v: row}) }
+
+// mergeHeap merges heap terms of one key over mutually exclusive path conditions.
+func (ex *Exec) mergeHeap(conds []Term, ts []Term, hint string) Term {
+	same := true
+	for _, t := range ts[1:] {
+		if t.S != ts[0].S {
+			same = false
+		}
+	}
+	if same {
+		return ts[0]
+	}
+	// ancestor chains
+	chain := func(t Term) []Term {
+		out := []Term{t}
+		for {
+			f, ok := ex.heapForms[t.S]
+			if !ok {
+				return out
+			}
+			t = f.parent
+			out = append(out, t)
+		}
+	}
+	chains := make([][]Term, len(ts))
+	for i, t := range ts {
+		chains[i] = chain(t)
+	}
+	// lowest common ancestor: first element of chain 0 present in all others
+	var base Term
+	found := false
+	for _, c := range chains[0] {
+		all := true
+		for _, oc := range chains[1:] {
+			in := false
+			for _, x := range oc {
+				if x.S == c.S {
+					in = true
+					break
+				}
+			}
+			if !in {
+				all = false
+				break
+			}
+		}
+		if all {
+			base, found = c, true
+			break
+		}
+	}
+	if !found {
+		acc := ts[len(ts)-1]
+		for i := len(ts) - 2; i >= 0; i-- {
+			acc = Ite(conds[i], ts[i], acc)
+		}
+		return ex.vc.Define(hint, acc)
+	}
+	cur := base
+	for k, t := range ts {
+		// updates from base to t, oldest first
+		var ups []heapUpd
+		for x := t; x.S != base.S; {
+			f := ex.heapForms[x.S]
+			ups = append(ups, f.upd)
+			x = f.parent
+		}
+		for i := len(ups) - 1; i >= 0; i-- {
+			u := ups[i]
+			switch u.kind {
+			case 1, 3:
+				cur = Sto(cur, u.r, Ite(conds[k], u.v, Sel(cur, u.r)))
+			case 2:
+				row := Sel(cur, u.r)
+				cur = Sto(cur, u.r, Sto(row, u.i, Ite(conds[k], u.v, Sel(row, u.i))))
+			}
+			cur = ex.vc.Define(hint, cur)
+		}
+	}
+	return cur
 }
 
 func leafSortFix(ex *Exec, l leaf) Sort {
@@ -256,9 +377,20 @@ func (ex *Exec) assumeLoaded(v Value, t types.Type, pc Term) {
 	case Sc:
 		if isInteger(t) {
 			ex.vc.Assume(pc, inRange(x.T, t), "")
+		} else if _, isRef := refLike(t); isRef {
+			// the heap only holds references to memory that has been allocated
+			ex.vc.Assume(pc, And(Ge(x.T, I(0)), Lt(x.T, ex.st.alloc)), "")
+		}
+	case PtrV:
+		if x.Kind == pObj && len(x.Path) == 0 {
+			ex.vc.Assume(pc, And(Ge(x.Ref, I(0)), Lt(x.Ref, ex.st.alloc)), "")
+		}
+	case FuncV:
+		if x.Ref.S != "" {
+			ex.vc.Assume(pc, And(Ge(x.Ref, I(0)), Lt(x.Ref, ex.st.alloc)), "")
 		}
 	case SliceV:
-		ex.vc.Assume(pc, And(Ge(x.Off, I(0)), Ge(x.Len, I(0)), Le(x.Len, x.Cap), Ge(x.Ptr, I(0)), Le(x.Cap, IStr("4611686018427387904")),
+		ex.vc.Assume(pc, And(Ge(x.Off, I(0)), Ge(x.Len, I(0)), Le(x.Len, x.Cap), Ge(x.Ptr, I(0)), Lt(x.Ptr, ex.st.alloc), Le(x.Cap, IStr("4611686018427387904")),
 			Implies(Eq(x.Ptr, I(0)), And(Eq(x.Len, I(0)), Eq(x.Cap, I(0))))), "")
 	case StructV:
 		st := t.Underlying().(*types.Struct)
@@ -310,11 +442,9 @@ func (ex *Exec) store(p PtrV, v Value) {
 			key := base + l.path
 			switch p.Kind {
 			case pObj:
-				h := ex.heapGet(key, ArrSort(SInt, lsrt))
-				ex.heapSet(key, Sto(h, p.Ref, ts[i]))
+				ex.hStore1(key, ArrSort(SInt, lsrt), p.Ref, ts[i])
 			case pElem:
-				h := ex.heapGet(key, ArrSort(SInt, ArrSort(SInt, lsrt)))
-				ex.heapSet(key, Sto(h, p.Ref, Sto(Sel(h, p.Ref), p.Idx, ts[i])))
+				ex.hStore2(key, ArrSort(SInt, ArrSort(SInt, lsrt)), p.Ref, p.Idx, ts[i])
 			default:
 				ex.heapGet(key, lsrt)
 				ex.heapSet(key, ts[i])
@@ -630,7 +760,11 @@ func (ex *Exec) mergeStates(sts []*State) *State {
 				vs = append(vs, Sc{ex.heap0[k]})
 			}
 		}
-		out.heap[k] = ex.mergeValues(conds, vs, "mH."+k).(Sc).T
+		var hts []Term
+		for _, v := range vs {
+			hts = append(hts, v.(Sc).T)
+		}
+		out.heap[k] = ex.mergeHeap(conds, hts, "mH."+k)
 	}
 	gk := map[string]bool{}
 	for _, s := range sts {
